@@ -867,7 +867,10 @@ def z11_rtc(F, R, M, roles):
     decoding of the capability response (clock type / smearing variant codes; smearing only decoded for a smeared clock)."""
     if RTC not in F.adts:
         return
-    req = [b for b in F.bodies.values() if b.get('impl_adt') == RTC and F.handwritten(b) and b['kind'] == 'AssocFn' and 'Req' in b.get('generics', [])]
+    # the shared request helper: the private generic method that puts a request on the queue (whatever its type parameters are
+    # called - a named parameter or an `impl Trait` argument)
+    req = [b for b in F.bodies.values() if b.get('impl_adt') == RTC and F.handwritten(b) and b['kind'] == 'AssocFn' and not b.get('pub') and b.get('generics')
+           and any(bl['term']['k'] == 'call' and roles.get(bl['term'].get('fn')) == 'add_notify_wait_pop' for bl in b['blocks'])]
     if len(req) != 1:
         raise Undecided('generic request helper of the clock driver not found')
     rid = req[0]['id']
